@@ -612,6 +612,87 @@ pub fn verify_bytecode(b: &Bytecode) -> ProgramResult {
     ProgramResult { issues, functions: b.functions.len(), facts, states }
 }
 
+/// Structural rendering of a type by id, independent of the numbering (depth-capped, so that a
+/// dangling or mis-numbered id cannot send it into unbounded recursion).
+pub fn show_type(b: &Bytecode, id: usize, depth: usize) -> String {
+    if depth == 0 {
+        return "…".into();
+    }
+    let Some(t) = b.types.get(id) else { return format!("<dangling type {id}>") };
+    let d = depth - 1;
+    match t {
+        Type::Integer => "'int".into(),
+        Type::Binary => "'bin".into(),
+        Type::Reference => "'ref".into(),
+        Type::Tuple(tid) => show_tuple(b, *tid, d),
+        Type::Partial { name, fields } => format!("{}({})", name.clone().unwrap_or_default(), fields.iter().map(|(l, t)| format!("{l}: {}", show_type(b, *t, d))).collect::<Vec<_>>().join(", ")),
+        Type::Callable { parameter, result, receive } => format!("#{} -> {} <{}>", show_type(b, *parameter, d), show_type(b, *result, d), show_type(b, *receive, d)),
+        Type::Cycle(k) => format!("^{k}"),
+        Type::Union(vs) => {
+            // a union is a set: its members are listed in a numbering-independent order
+            let mut m: Vec<String> = vs.iter().map(|v| show_type(b, *v, d)).collect();
+            m.sort();
+            format!("({})", m.join(" | "))
+        }
+        Type::Process { send, receive } => format!("@{} -> {}", send.map(|x| show_type(b, x, d)).unwrap_or("?".into()), receive.map(|x| show_type(b, x, d)).unwrap_or("?".into())),
+        Type::Resource(n) => format!("\\{n}"),
+        Type::Variable(n) => format!("'{n}"),
+    }
+}
+
+pub fn show_tuple(b: &Bytecode, tid: usize, depth: usize) -> String {
+    let Some(info) = b.tuples.get(tid) else { return format!("<dangling tuple {tid}>") };
+    format!(
+        "{}[{}]",
+        info.name.clone().unwrap_or_default(),
+        info.fields.iter().map(|(l, t)| format!("{}{}", l.as_ref().map(|l| format!("{l}: ")).unwrap_or_default(), show_type(b, *t, depth))).collect::<Vec<_>>().join(", ")
+    )
+}
+
+/// A function rendered with every table index replaced by what it refers to: two programs that
+/// differ only by a renumbering of their tables give the same fingerprints.
+pub fn fingerprints(b: &Bytecode) -> Vec<String> {
+    const D: usize = 7;
+    b.functions
+        .iter()
+        .map(|f| {
+            let mut s = format!("{} captures={}", show_type(b, f.type_id, D), f.captures);
+            for ins in &f.instructions {
+                s.push('\n');
+                s.push_str(&match ins {
+                    Instruction::Constant(i) => format!("Constant {:?}", b.constants.get(*i)),
+                    Instruction::Tuple(t) => format!("Tuple {}", show_tuple(b, *t, D)),
+                    Instruction::IsType(t) => format!("IsType {}", show_type(b, *t, D)),
+                    Instruction::Function(x) => format!("Function {}", b.functions.get(*x).map(|g| format!("{} captures={} len={}", show_type(b, g.type_id, D), g.captures, g.instructions.len())).unwrap_or("<dangling>".into())),
+                    Instruction::Process(k, x) => format!("Process {k:?} {}", b.functions.get(*x).map(|g| format!("{} len={}", show_type(b, g.type_id, D), g.instructions.len())).unwrap_or("<dangling>".into())),
+                    Instruction::Builtin(x) => format!("Builtin {}", b.builtins.get(*x).map(|i| i.name.clone()).unwrap_or("<dangling>".into())),
+                    other => format!("{other:?}"),
+                });
+            }
+            s
+        })
+        .collect()
+}
+
+/// Every function of `derived` (a tree-shaken or merged form) must be a function of `original`
+/// up to renumbering (when `subset`), or every function of `original` must occur in `derived`.
+pub fn renaming_issue(original: &Bytecode, derived: &Bytecode, derived_is_subset: bool) -> Option<String> {
+    let fo = fingerprints(original);
+    let fd = fingerprints(derived);
+    let (small, large, what) = if derived_is_subset { (&fd, &fo, "a function of the derived program is not a renumbering of any function of the original") } else { (&fo, &fd, "a function of the original program has no renumbered counterpart in the derived program") };
+    let set: std::collections::BTreeSet<&String> = large.iter().collect();
+    for (i, f) in small.iter().enumerate() {
+        if !set.contains(f) {
+            // closest by first line, for the report
+            let head = f.lines().next().unwrap_or("");
+            let near = large.iter().find(|g| g.lines().count() == f.lines().count() && g.lines().zip(f.lines()).filter(|(a, b)| a != b).count() <= 3);
+            let diff = near.map(|g| g.lines().zip(f.lines()).filter(|(a, b)| a != b).map(|(a, b)| format!("    there: {a}\n    here:  {b}")).collect::<Vec<_>>().join("\n")).unwrap_or_default();
+            return Some(format!("{what}: function {i} ({head})\n{diff}"));
+        }
+    }
+    None
+}
+
 pub fn disassemble(f: &Function) -> String {
     f.instructions
         .iter()
